@@ -17,6 +17,10 @@ Operations (values are ints, `r` is the word the random source returns):
   hold k (keep the node GetNode(k) returns) | held (Key/Value/Next of the kept node) |
   heldset v (SetValue on the kept node) | heldwalk (Next() from the kept node to the end);
   the kept node is dropped when it is removed from the list (rm hit on an equivalent key, clear, init)
+  seq k (slot k := s.All(), k < 4) | seqrange k n (range the held Seq, stop after n) |
+  seqtwice k j (range with break after j, then fully) | seqnest k j (nested over itself, j outer
+  rounds) | pull2 k a (two alternating iter.Pull2 cursors, the first stopped after a values)
+  initcmp <name> (SkipListWithCmp only: `s.Init(<comparator name>)` — re-configuration with another comparator)
   fill lo hi step seed nat|tall | rmrange lo hi step asc|desc|stride s   (int keys; see below)
 Every answer is `<result> | L=<level> n=<len> <towers>` (`dump`), `<result> | L= n= lens=<chain lengths>`
 (`vdump`, for large lists) or `<result>` (`nodump`).
@@ -195,7 +199,7 @@ def showNode (io : KeyIO K) (s : SL K Int) (n : K) : Option String :=
   | _, _ => none
 
 /-- One operation; the state is the list and the node handle the harness keeps (`hold`). -/
-def step (io : KeyIO K) (cfg : Cfg K Int) (st : SL K Int × Option K) (t : List String) :
+def stepH (io : KeyIO K) (cfg : Cfg K Int) (st : SL K Int × Option K) (t : List String) :
     Option (Option ((SL K Int × Option K) × String)) :=
   let (s, held) := st
   match t with
@@ -253,24 +257,90 @@ def step (io : KeyIO K) (cfg : Cfg K Int) (st : SL K Int × Option K) (t : List 
       | _, _ => false
     (stepList io cfg s t).map fun r => r.map fun (s', o) => ((s', if drops then none else held), o)
 
+def slot? (k : String) : Option Nat :=
+  match k.toNat? with
+  | some n => if n < 4 then some n else none
+  | none => none
+
+/-- One operation; `seqs` = which of the four Seq slots hold a value obtained from `All()`.
+A held Seq is a closure over the list object: it has no state in the model, ranging it reads
+the current list. -/
+def step (io : KeyIO K) (cfg : Cfg K Int) (st : (SL K Int × Option K) × List Bool) (t : List String) :
+    Option (Option (((SL K Int × Option K) × List Bool) × String)) :=
+  let (sh, seqs) := st
+  let s := sh.1
+  let have_ (k : Nat) : Bool := seqs.getD k false
+  match t with
+  | ["seq", k] => (slot? k).map fun k => some ((sh, seqs.set k true), "ok")
+  | ["seqrange", k, n] =>
+    match slot? k, n.toNat? with
+    | some k, some n => some (if have_ k then (s.range cfg n).map fun xs => (st, showKVs io xs) else some (st, "none"))
+    | _, _ => none
+  | ["seqtwice", k, j] =>
+    match slot? k, j.toNat? with
+    | some k, some j =>
+      if j = 0 then none
+      else some (if have_ k then (s.seqTwice cfg j).map fun (xs, ys) => (st, showKVs io xs ++ " ; " ++ showKVs io ys)
+        else some (st, "none"))
+    | _, _ => none
+  | ["seqnest", k, j] =>
+    match slot? k, j.toNat? with
+    | some k, some j =>
+      if j = 0 then none
+      else some (if have_ k then (s.seqNest cfg j).map fun (xs, cs) =>
+          (st, "outer=" ++ showKVs io xs ++ " inner=" ++ ",".intercalate (cs.map toString))
+        else some (st, "none"))
+    | _, _ => none
+  | ["pull2", k, a] =>
+    match slot? k, a.toNat? with
+    | some k, some a =>
+      some (if have_ k then (s.pull2 cfg a).map fun (xs, ys) => (st, showKVs io xs ++ " ; " ++ showKVs io ys)
+        else some (st, "none"))
+    | _, _ => none
+  | _ => (stepH io cfg sh t).map fun r => r.map fun (sh', o) => ((sh', seqs), o)
+
 def withDump (io : KeyIO K) (dump : String) (out : String) (s : SL K Int) : String :=
   if dump = "dump" then out ++ " | " ++ showTowers io s
   else if dump = "vdump" then out ++ " | " ++ showTowerLens s
   else out
 
-def runOps (io : KeyIO K) (cfg : Cfg K Int) (dump : String) :
-    Option (SL K Int × Option K) → List String → List String
-  | _, [] => []
-  | none, _ :: ls => "dead" :: runOps io cfg dump none ls
-  | some s, l :: ls =>
-    match step io cfg s (toks l) with
-    | none => "bad-op" :: runOps io cfg dump (some s) ls
-    | some none => "panic" :: runOps io cfg dump none ls
-    | some (some (s', out)) => withDump io dump out s'.1 :: runOps io cfg dump (some s') ls
+/-- The comparators of `SkipListWithCmp` cases, by name. -/
+def intCmp? (c : String) : Option (Int → Int → Int) :=
+  if c = "nat" then some cmpInt else if c = "rev" then some (fun a b => cmpInt b a)
+  else if c = "mod3" then some cmpMod3 else if c = "half" then some cmpHalf
+  else if c = "diff" then some cmpDiff else if c = "scaled" then some cmpScaled
+  else if c = "sgnhash" then some cmpSgnHash else if c = "halfdiff" then some cmpHalfDiff else none
 
-def runWith (io : KeyIO K) (cfg : Cfg K Int) (kind : String) (dump : String) (ops : List String) : List String :=
+def strCmp? (c : String) : Option (List Nat → List Nat → Int) :=
+  if c = "nat" then some cmpBytes else if c = "rev" then some (fun a b => cmpBytes b a)
+  else if c = "len" then some cmpLen else if c = "lenonly" then some cmpLenOnly
+  else if c = "bytesdiff" then some cmpBytesDiff else none
+
+/-- `tbl`: the comparator table for `initcmp <name>` = `s.Init(<other comparator>)` on a
+`SkipListWithCmp` (re-configuration: everything is reset and the NEW comparator rules from then
+on; held Seq values stay valid — they are closures over the list object). -/
+def runOps (io : KeyIO K) (tbl : String → Option (K → K → Int)) (cfg : Cfg K Int) (dump : String) :
+    Option ((SL K Int × Option K) × List Bool) → List String → List String
+  | _, [] => []
+  | none, _ :: ls => "dead" :: runOps io tbl cfg dump none ls
+  | some s, l :: ls =>
+    match toks l with
+    | ["initcmp", c] =>
+      match (if cfg.lazy then none else tbl c) with
+      | none => "bad-op" :: runOps io tbl cfg dump (some s) ls
+      | some f =>
+        let s' : (SL K Int × Option K) × List Bool := ((SL.init, none), s.2)
+        withDump io dump "ok" s'.1.1 :: runOps io tbl { cfg with cmp := f } dump (some s') ls
+    | t =>
+      match step io cfg s t with
+      | none => "bad-op" :: runOps io tbl cfg dump (some s) ls
+      | some none => "panic" :: runOps io tbl cfg dump none ls
+      | some (some (s', out)) => withDump io dump out s'.1.1 :: runOps io tbl cfg dump (some s') ls
+
+def runWith (io : KeyIO K) (tbl : String → Option (K → K → Int)) (cfg : Cfg K Int) (kind : String) (dump : String)
+    (ops : List String) : List String :=
   let s0 : SL K Int := if kind = "zero" then SL.zero else SL.init
-  withDump io dump "ok" s0 :: runOps io cfg dump (some (s0, none)) ops
+  withDump io dump "ok" s0 :: runOps io tbl cfg dump (some ((s0, none), [false, false, false, false])) ops
 
 def bad (ops : List String) : List String := "bad-op" :: ops.map fun _ => "bad-op"
 
@@ -281,27 +351,18 @@ def runCase (hdr : List String) (ops : List String) : List String :=
     let dump := d
     if kind = "zero" ∨ kind = "new" then
       if c ≠ "nat" then bad ops
-      else if kt = "int" then runWith intIO ⟨cmpInt, true, 0, 0, true⟩ kind dump ops
-      else if kt = "str" then runWith strIO ⟨cmpBytes, true, [], 0, true⟩ kind dump ops
+      else if kt = "int" then runWith intIO intCmp? ⟨cmpInt, true, 0, 0, true⟩ kind dump ops
+      else if kt = "str" then runWith strIO strCmp? ⟨cmpBytes, true, [], 0, true⟩ kind dump ops
       else bad ops
     else if kind = "cmp" then
       if kt = "int" then
-        if c = "nat" then runWith intIO ⟨cmpInt, false, 0, 0, true⟩ kind dump ops
-        else if c = "rev" then runWith intIO ⟨fun a b => cmpInt b a, false, 0, 0, true⟩ kind dump ops
-        else if c = "mod3" then runWith intIO ⟨cmpMod3, false, 0, 0, true⟩ kind dump ops
-        else if c = "half" then runWith intIO ⟨cmpHalf, false, 0, 0, true⟩ kind dump ops
-        else if c = "diff" then runWith intIO ⟨cmpDiff, false, 0, 0, true⟩ kind dump ops
-        else if c = "scaled" then runWith intIO ⟨cmpScaled, false, 0, 0, true⟩ kind dump ops
-        else if c = "sgnhash" then runWith intIO ⟨cmpSgnHash, false, 0, 0, true⟩ kind dump ops
-        else if c = "halfdiff" then runWith intIO ⟨cmpHalfDiff, false, 0, 0, true⟩ kind dump ops
-        else bad ops
+        match intCmp? c with
+        | some f => runWith intIO intCmp? ⟨f, false, 0, 0, true⟩ kind dump ops
+        | none => bad ops
       else if kt = "str" then
-        if c = "nat" then runWith strIO ⟨cmpBytes, false, [], 0, true⟩ kind dump ops
-        else if c = "rev" then runWith strIO ⟨fun a b => cmpBytes b a, false, [], 0, true⟩ kind dump ops
-        else if c = "len" then runWith strIO ⟨cmpLen, false, [], 0, true⟩ kind dump ops
-        else if c = "lenonly" then runWith strIO ⟨cmpLenOnly, false, [], 0, true⟩ kind dump ops
-        else if c = "bytesdiff" then runWith strIO ⟨cmpBytesDiff, false, [], 0, true⟩ kind dump ops
-        else bad ops
+        match strCmp? c with
+        | some f => runWith strIO strCmp? ⟨f, false, [], 0, true⟩ kind dump ops
+        | none => bad ops
       else bad ops
     else bad ops
   | _ => bad ops
